@@ -1056,3 +1056,108 @@ pub fn edge_clusters(rng: &mut Rng) -> Vec<(B, bool)> {
     out
 }
 
+
+/// Immobilised sides (fifth round): the side to move owns only a few pieces, each standing on the rim (a- / h-file,
+/// first / last rank, corners) with EVERY neighbour occupied by an enemy piece it cannot push (equal strength: the
+/// piece is unfrozen and boxed in; stronger: frozen), its rabbit blocked in front and on both sides.  The side has
+/// no step, so the turn-start result must be a loss although no goal or rabbit count decides; a summary query that
+/// looks at neighbours with an unmasked shift sees a phantom empty square across the board edge here.  A few
+/// enemy pieces elsewhere vary what stands on those wrap-around squares.
+pub fn immobilised_edges(rng: &mut Rng, n: usize) -> Vec<(B, bool)> {
+    let mut out = vec![];
+    let lim = [8u8, 2, 2, 2, 1, 1];
+    let rim: Vec<usize> = (0..64).filter(|i| i % 8 == 0 || i % 8 == 7 || i / 8 == 0 || i / 8 == 7).collect();
+    'outer: for k in 0..n {
+        let side = rng.chance(1, 2);
+        let mut b: B = [None; 64];
+        let mut cnt = [[0u8; 6]; 2];
+        let mut mine: Vec<usize> = vec![];
+        // one or two officers on the rim, then the rabbit
+        let officers = 1 + rng.below(2);
+        for j in 0..=officers {
+            let is_rabbit = j == officers;
+            let t: usize = if is_rabbit { 0 } else { 1 + rng.below(4) };
+            if cnt[side as usize][t] >= lim[t] {
+                continue;
+            }
+            let mut sq = None;
+            for _ in 0..40 {
+                let e = if k % 3 == 0 { [0usize, 7, 56, 63][rng.below(4)] } else { *rng.pick(&rim) };
+                let goal_row = if side { 0 } else { 7 };
+                let home_row = 7 - goal_row;
+                if b[e].is_some() || TRAPS.contains(&e) || (is_rabbit && (e / 8 == goal_row || e / 8 == home_row && rng.chance(1, 2))) {
+                    continue;
+                }
+                // not next to one of my own pieces (it would support it)
+                if (0..4).any(|d| nb(e, d).map_or(false, |x| mine.contains(&x))) {
+                    continue;
+                }
+                sq = Some(e);
+                break;
+            }
+            let Some(e) = sq else { continue 'outer };
+            b[e] = Some((side, t as u8));
+            cnt[side as usize][t] += 1;
+            mine.push(e);
+            let equal_first = rng.chance(1, 2);
+            for d in 0..4 {
+                // a rabbit never steps backwards: leave the square behind it alone half of the time
+                let backwards = if side { 2 } else { 0 };
+                if is_rabbit && d == backwards && rng.chance(1, 2) {
+                    continue;
+                }
+                let Some(x) = nb(e, d) else { continue };
+                if b[x].is_some() {
+                    continue;
+                }
+                let mut choices: Vec<usize> = (t.max(if is_rabbit { 0 } else { t })..6).filter(|&u| cnt[!side as usize][u] < lim[u]).collect();
+                if is_rabbit && rng.chance(1, 2) {
+                    choices.retain(|&u| u == 0 || cnt[!side as usize][0] >= lim[0]);
+                }
+                if choices.is_empty() {
+                    continue 'outer;
+                }
+                // enemy rabbits may not stand on their own goal/home rows arbitrarily; any square is legal for them but
+                // one on ITS goal row would end the game by goal: avoid
+                let enemy_goal_row = if side { 7 } else { 0 };
+                choices.retain(|&u| !(u == 0 && x / 8 == enemy_goal_row));
+                if choices.is_empty() {
+                    continue 'outer;
+                }
+                let u = if equal_first && choices.contains(&t) { t } else { *rng.pick(&choices) };
+                b[x] = Some((!side, u as u8));
+                cnt[!side as usize][u] += 1;
+            }
+        }
+        if cnt[side as usize][0] == 0 {
+            continue;
+        }
+        // the opponent needs a rabbit as well, and a few pieces elsewhere
+        let extra = rng.below(4) + if cnt[!side as usize][0] == 0 { 1 } else { 0 };
+        for j in 0..extra {
+            let u = if j == 0 && cnt[!side as usize][0] == 0 { 0 } else { *rng.pick(&[0usize, 0, 1, 2, 3]) };
+            if cnt[!side as usize][u] >= lim[u] {
+                continue;
+            }
+            for _ in 0..20 {
+                let x = rng.below(64);
+                let enemy_goal_row = if side { 7 } else { 0 };
+                if b[x].is_none() && !TRAPS.contains(&x) && !(u == 0 && (x / 8 == enemy_goal_row)) {
+                    b[x] = Some((!side, u as u8));
+                    cnt[!side as usize][u] += 1;
+                    break;
+                }
+            }
+        }
+        let s0 = b;
+        for t in TRAPS {
+            if let Some((g, _)) = s0[t] {
+                if !friend(&s0, t, g) {
+                    b[t] = None;
+                }
+            }
+        }
+        out.push((b, side));
+    }
+    out
+}
